@@ -151,6 +151,8 @@ pub fn thrift_docs() -> Vec<SDoc> {
                         Method { name: "count".into(), oneway: false, ret: Some(STy::I64), args: vec![f(5, "sc", Default, named(0, "Scalars"))], throws: vec![] },
                         Method { name: "risky".into(), oneway: false, ret: None, args: vec![f(1, "ch", Default, named(0, "Choice"))], throws: vec![f(1, "a", Default, named(1, "Oops")), f(2, "b", Default, named(1, "Oops"))] },
                         Method { name: "names".into(), oneway: false, ret: Some(list(STy::String)), args: vec![f(1, "ids", Default, list(named(1, "Id")))], throws: vec![] },
+                        // structs that reach a method only as container elements (never directly)
+                        Method { name: "batch".into(), oneway: false, ret: Some(list(named(1, "Point"))), args: vec![f(1, "pts", Default, list(named(1, "Point"))), f(2, "by", Default, map(STy::String, named(0, "Keyed"))), f(3, "cs", Optional, set(named(1, "Color")))], throws: vec![] },
                     ],
                     None,
                 ),
